@@ -19,11 +19,17 @@
        their instructions are the given IRs); event k:c runs the Allocator with configuration c on
        program k; every program is allocated at least once.  Programs share nothing, so each one ends
        as the allocation under the configuration last applied to it, whatever happened to the others.
+     salloc <script as hex bytes> <in>,<out>,<fmt>
+                                               -> ok <IR with identifiers> <temporaries> <output value, separate> <output value, aliased>
+       the whole pipeline on a script: parse (model/Peg.v), acc.Translate (model/Translate.v, which
+       models the sharing of operand objects between a name and its aliases), then the allocator and
+       the interpreter in both modes; errors: parse, undefined, redefine, empty, conflict.
    IR: instructions joined by ';' ('-' = no instruction): a<out>:<x>,<y> | d<out>:<x> | s<out>:<x>:<n>;
    operand: decimal index, optionally followed by '@' and the identifier as hex pairs. *)
 From Coq Require Import String.
 From Coq Require Import List NArith ZArith Bool.
 From AV Require Import model.Proto model.Ir model.Alloc model.Interp.
+From AV Require model.Peg model.Translate.
 Import ListNotations.
 Open Scope N_scope.
 
@@ -258,8 +264,24 @@ Definition run_multi (ps : list iprogram) (cs : list alloc_cfg) (evs : list (nat
   | None => r_badcase
   end.
 
+Definition run_salloc (src : list N) (cfg : alloc_cfg) : list N :=
+  match obind (AV.model.Peg.parse src) (fun c => obind (AV.model.Translate.translate c) (fun p => allocate cfg p)) with
+  | Ok (q, t) =>
+      r_ok (print_ir q ++ [sp] ++ print_list print_bytes t ++ [sp]
+            ++ print_run (cfg_out cfg) (run_interp Separate (cfg_in cfg) (cfg_out cfg) 1 q) ++ [sp]
+            ++ print_run (cfg_out cfg) (run_interp Aliased (cfg_in cfg) (cfg_out cfg) 1 q))
+  | e => print_outcome (fun _ => []) e
+  end.
+
 Definition run (line : list N) : list N :=
   match split sp line with
+  | [f; a; b] =>
+      if str_eqb f $"salloc" then
+        match parse_bytes a, parse_cfg b with
+        | Some src, Some cfg => run_salloc src cfg
+        | _, _ => r_badcase
+        end
+      else r_badcase
   | [f; ir; i; o; fm] =>
       if str_eqb f $"multi" then
         match map_opt parse_ir (split bar i), map_opt parse_cfg (split bar o), parse_list parse_event fm with
